@@ -40,7 +40,7 @@ CHECKS["C18"] = dict(
         "path passes `security_level(right flag) < minimum` with the right error (option set: no listed option equals the proof's), that "
         "security_level dispatches to the right estimate fed from the proof context and H::COLLISION_RESISTANCE, that the claimed-field "
         "decision dominates acceptance, and that the integer conjectured estimate equals the documented formula on every path (symbolic "
-        "normal form, all parameter values at once). Monotonicity and the floating-point proven estimate are not decided.",
+        "normal form, all parameter values at once). Monotonicity and the floating-point proven estimate are not decided. (EQ) the equality of ProofOptions that the option-set policy relies on is structural (all fields compared pairwise) or an encoding proved injective on the model of legal option values.",
    design_ref="DESIGN.md §3 C18")
 CHECKS["C13"] = dict(
    technique="static analysis: must-pass cursor advance with inter-method summaries, call-graph absence rule for &self methods, truncation/position pairing, control-dependence of end-of-data sites",
